@@ -251,6 +251,12 @@ impl Writer {
         checksum.inner_mut().get_mut().sync_all()?;
         let checksum = checksum.checksum();
 
+        // IMPORTANT: fsync folder on Unix, like the table writer does,
+        // otherwise the version can durably name a blob file whose directory entry was lost
+        if let Some(folder) = self.path.parent() {
+            crate::file::fsync_directory(folder)?;
+        }
+
         Ok((metadata, checksum))
     }
 }
